@@ -4,12 +4,14 @@ Every history is replayed from a *hard* reset done by the harness (module dicts 
 dicts restored from a snapshot taken at import - never by the reset() under test) with fresh user classes.
 
 ops
-  ["reg", tag, private]        tag in U1 (Ux) U2 (another class, also Ux) U3 (Uy, impedance contradicts equation)
+  ["reg", tag, private]        U8 (Uz, contradicts its equation only in the minor component); tag in U1 (Ux) U2 (another class, also Ux) U3 (Uy, impedance contradicts equation)
                                U4 (R: shadows a built-in) U5 (Lab) U6 (invalid 'r') U7 (invalid 'R-x')
   ["rm", tag | "Resistor" | "list" | "unknown"]
   ["reset", elements, default_parameters]
   ["setdef", "Resistor" | "Capacitor" | "U1"]
   ["resetdef", None | "Resistor" | "[Resistor]"]
+  ["probe"]                    parse_cdc on the probe codes (parsing is an operation of its own: a parser may cache what it saw,
+                               so the registry state at the most recent parse is part of the canonical state)
 """
 from __future__ import annotations
 
@@ -19,8 +21,8 @@ import warnings
 from typing import Any, Dict, List, Optional, Tuple
 
 DEFS = {"U1": ("Ux", False), "U2": ("Ux", False), "U3": ("Uy", True), "U4": ("R", False), "U5": ("Lab", False), "U6": ("r", False),
-        "U7": ("R-x", False)}
-PROBES = ["R", "C", "L", "La", "Ls", "LLaLs", "Ux", "UxR", "Uy", "UyR", "Lab", "LabL", "K", "Rx", "Tlm"]
+        "U7": ("R-x", False), "U8": ("Uz", "subtle")}
+PROBES = ["R", "C", "L", "La", "Ls", "LLaLs", "Ux", "UxR", "Uy", "UyR", "Uz", "Lab", "LabL", "K", "Rx", "Tlm"]
 
 _SNAP: Dict[str, Any] = {}
 
@@ -65,8 +67,12 @@ class Ref:
         self.base_defaults = {k: dict(v) for k, v in S["D"].items()}
         self.userdef: Dict[str, float] = {}   # tag -> default R of the registered user class
         self.initialised: set = set()          # tags whose class went through (even failed) registration
+        self.last_probe = None                 # registry state at the most recent parse_cdc (a parser may cache what it saw)
 
     def key(self):
+        return (self.reg_key(), self.last_probe)
+
+    def reg_key(self):
         return (tuple(sorted(self.E.items())), tuple(sorted(self.P)),
                 tuple(sorted((k, tuple(sorted(v.items()))) for k, v in self.defaults.items() if v != self.base_defaults[k])),
                 tuple(sorted(self.userdef.items())), tuple(sorted(self.initialised)))
@@ -89,6 +95,7 @@ class Ref:
 
 class Model:
     continue_after_violation = False
+    isolate = True   # the registry is process-global: every replayed history runs in its own forked child
 
     def __init__(self, args):
         warnings.simplefilter("ignore")
@@ -114,11 +121,13 @@ class Model:
 
         class U(A["Element"]):
             def _impedance(self, f, R):
+                if bad == "subtle":   # contradicts the equation only in the minor (imaginary) component: R*2 - 1e-11*f*I
+                    return R * 2 + 1e-11j * f
                 return (R * (3 if bad else 2)) + 0j * f
 
         U.__name__ = "U" + tag
         U.__qualname__ = "U" + tag
-        return A["ElementDefinition"](Class=U, symbol=sym, name="n" + tag, description="d", equation="R*2",
+        return A["ElementDefinition"](Class=U, symbol=sym, name="n" + tag, description="d", equation="R*2" if bad != "subtle" else "R*2 - 1e-11*f*I",
                                       parameters=[A["ParameterDefinition"]("R", "ohm", "res", 1.0, 0.0, np.inf, False)])
 
     def initial(self):
@@ -137,7 +146,7 @@ class Model:
         ops: List[list] = []
         for t in DEFS:
             for p in (False, True):
-                if t in ("U6", "U7", "U3", "U4") and p:
+                if t in ("U6", "U7", "U3", "U4", "U8") and p:
                     continue
                 ops.append(["reg", t, p])
         for t in ("U1", "U2", "U5", "Resistor", "list", "unknown"):
@@ -152,6 +161,8 @@ class Model:
         ops.append(["resetdef", None])
         ops.append(["resetdef", "Resistor"])
         ops.append(["resetdef", "[Resistor]"])
+        if ref.last_probe != ref.reg_key():
+            ops.insert(0, ["probe"])
         return ops
 
     # ---------------------------------------------------------------------------------------
@@ -178,6 +189,8 @@ class Model:
                     A["Capacitor"].set_default_values("C", 3e-6)
                 else:
                     self.cls(impl, op[1]).Class.set_default_values(R=5.0)
+            elif op[0] == "probe":
+                pass
             elif op[0] == "resetdef":
                 if op[1] is None:
                     A["reset_default_parameter_values"]()
@@ -233,6 +246,8 @@ class Model:
             else:
                 ref.userdef[op[1]] = 5.0
             return "ok"
+        if op[0] == "probe":
+            return "ok"
         if op[0] == "resetdef":
             if op[1] is None:
                 ref.defaults = {k: dict(v) for k, v in ref.base_defaults.items()}
@@ -241,32 +256,41 @@ class Model:
             return "ok"
         raise RuntimeError(op)
 
-    def observe(self, impl):
+    def observe(self, impl, with_parse: bool):
         A = self.api
         views = []
         for d_, p_ in ((False, False), (False, True), (True, False), (True, True)):
             views.append(tuple(sorted((k, v.__name__) for k, v in A["get_elements"](default_only=d_, private=p_).items())))
         defaults = {k: dict(c.get_default_values()) for k, c in self.S["DE"].items()}
-        probes = []
-        for s in PROBES:
-            try:
-                probes.append(tuple(type(e).__name__ for e in A["parse_cdc"](s).get_elements(recursive=False)))
-            except (A["ParsingError"], A["TokenizingError"]):
-                probes.append("error")
-            except Exception as e:
-                probes.append("CRASH:" + type(e).__name__)
         inst = {}
+        reg = A["reg"]
         for sym in ("R", "C", "Ux"):
-            try:
-                el = A["parse_cdc"](sym).get_elements()[0]
-                inst[sym] = (type(el).__name__, tuple(el.get_values().values()))
-            except Exception:
-                inst[sym] = None
-        return views, defaults, tuple(probes), inst
+            c = reg._ELEMENTS.get(sym) if sym == "Ux" else self.S["DE"][sym]
+            inst[sym] = None if c is None else (c.__name__, tuple(c().get_values().values()))
+        probes = None
+        if with_parse:
+            pr = []
+            for s in PROBES:
+                try:
+                    pr.append(tuple(type(e).__name__ for e in A["parse_cdc"](s).get_elements(recursive=False)))
+                except (A["ParsingError"], A["TokenizingError"]):
+                    pr.append("error")
+                except Exception as e:
+                    pr.append("CRASH:" + type(e).__name__)
+            probes = tuple(pr)
+            for sym in ("R", "C", "Ux"):   # defaults as seen by instances the parser creates
+                try:
+                    el = A["parse_cdc"](sym).get_elements()[0]
+                    got = (type(el).__name__, tuple(el.get_values().values()))
+                except Exception:
+                    got = None
+                if got != inst[sym]:
+                    inst[sym] = ("parser-made instance differs", got, inst[sym])
+        return views, defaults, probes, inst
 
-    def expected(self, ref: Ref):
+    def expected(self, ref: Ref, with_parse: bool):
         views = [ref.view(False, False), ref.view(False, True), ref.view(True, False), ref.view(True, True)]
-        probes = tuple(ref.parse(s) for s in PROBES)
+        probes = tuple(ref.parse(s) for s in PROBES) if with_parse else None
         inst = {}
         for sym in ("R", "C", "Ux"):
             if sym not in ref.E:
@@ -290,8 +314,11 @@ class Model:
         if out_i != out_r:
             viol(f"outcome|{name}|impl={out_i}|model={out_r}", f"{json.dumps(op)}: implementation -> {out_i}, reference registry -> {out_r}")
             return impl, ref, vs
-        obs = self.observe(impl)
-        exp = self.expected(ref)
+        probing = op[0] == "probe"
+        obs = self.observe(impl, probing)
+        exp = self.expected(ref, probing)
+        if probing:
+            ref.last_probe = ref.reg_key()
         names = ["get_elements views", "built-in default values", "parse_cdc probes", "defaults seen by new instances"]
         for i, (a, b) in enumerate(zip(obs, exp)):
             if a != b:
@@ -314,6 +341,18 @@ class Model:
             if reg._ELEMENTS.get(k) is not c:
                 viol("invariant|built-in-missing-or-shadowed", f"built-in symbol {k} no longer maps to its original class")
         return impl, ref, vs
+
+    def final_check(self, impl, ref: Ref, op) -> List[dict]:
+        """parse_cdc probes at the end of a history (run only in a discarded child: parsing may touch hidden parser state)."""
+        obs = self.observe(impl, True)
+        exp = self.expected(ref, True)
+        if obs[2] != exp[2]:
+            return [{"key": "observation|parse_cdc probes|at-end-of-history", "what": f"after the history ending in {json.dumps(op)} parse_cdc recognises other symbols than the registered ones",
+                     "detail": str([(s, x, y) for s, x, y in zip(PROBES, obs[2], exp[2]) if x != y][:4])}]
+        if obs[3] != exp[3]:
+            return [{"key": "observation|defaults seen by new instances|at-end-of-history", "what": "instances created by the parser do not show the current class defaults",
+                     "detail": f"observed={obs[3]} expected={exp[3]}"[:500]}]
+        return []
 
     def canon(self, impl, ref: Ref):
         reg = self.api["reg"]
